@@ -387,7 +387,7 @@ func upselSlowRequestHistory() {
 		if strings.HasPrefix(r.URL.Path, "/slow") {
 			select {
 			case <-r.Context().Done():
-			case <-time.After(1200 * time.Millisecond):
+			case <-time.After(4 * time.Second):
 			}
 		}
 		w.Header().Set("Cache-Control", "no-store")
@@ -400,7 +400,8 @@ func upselSlowRequestHistory() {
 	}))
 	defer backup.Close()
 	ucfg := []config.UpstreamConfig{{Name: "u1", Policy: "first", Servers: []config.UpstreamServerConfig{{Addr: prim.URL}, {Addr: backup.URL, Backup: true}}}}
-	locs := []config.LocationConfig{{Name: "l1", Upstream: "u1", ProxyTimeout: "200ms"}}
+	// (the time-out is generous: on a busy machine an ordinary loopback request must not run into it)
+	locs := []config.LocationConfig{{Name: "l1", Upstream: "u1", ProxyTimeout: "1500ms"}}
 	p := newPipeline(100, "1s", false, serverOption(), locs, ucfg)
 	upstream.Reset(nil)
 	upstream.Reset(ucfg)
@@ -418,7 +419,7 @@ func upselSlowRequestHistory() {
 	{
 		k++
 		req := buildRequest("GET", "x.test", fmt.Sprintf("/slow/%d", k), nil, nil)
-		ctx, cancel := context.WithTimeout(req.Context(), 60*time.Millisecond)
+		ctx, cancel := context.WithTimeout(req.Context(), 100*time.Millisecond)
 		w := httptest.NewRecorder()
 		p.e.ServeHTTP(w, req.WithContext(ctx))
 		cancel()
